@@ -288,98 +288,123 @@ theorem step_ret_none (E : Env α) (l : List α) (op : Op α) (o : Out α)
       | (simp only [Except.ok.injEq] at h; subst h; rfl)
       | (simp at h)
 
-/-- Finish: both sides agree once the guard and the `TraitList` result are fixed. -/
-macro "tlo_done" "[" ts:Lean.Parser.Tactic.simpLemma,* "]" : tactic =>
-  `(tactic| (first | (tlo_exec [$ts,*]; done) | (tlo_exec [$ts,*]; (first | omega | simp_all))))
+/-- After symbolic execution both sides are `if c.ok (n) then … else …` with the
+guard value as the source computes it on the left and as the model states it
+on the right; the two values are equal by linear arithmetic (`omega`), whatever
+way the source writes them.  So: split on both conditions, close the two
+contradictory combinations by `omega`, finish the execution in the others. -/
+theorem guard_contra {c : LenCfg} {a b : Int} (h1 : c.ok a = false) (h2 : c.ok b = true) (hab : a = b) :
+    False := by
+  subst hab; simp_all
+
+macro "guard_absurd" : tactic =>
+  `(tactic| (exfalso
+             try simp only [Bool.not_eq_true] at *
+             exact guard_contra (by assumption) (by assumption) (by omega)))
+
+macro "tlo_finish" "[" ts:Lean.Parser.Tactic.simpLemma,* "]" : tactic =>
+  `(tactic| simp_all [runTraitListObjectM, Generated.traitListObjectProg, lookupFn, exec, eval, bindArgs,
+      truthy, setVar, setVars, evalAll, intOp, summarize, summaryOfStep, TraitListObject.step, guardLen,
+      tl_setIdx, tl_setSlice, tl_delIdx, tl_delSlice, tl_append, tl_extend, tl_iadd, tl_imul, tl_insert, tl_pop,
+      tl_remove, tl_clear, tl_reverse, tl_sort, $ts,*])
+
+macro "tlo_guarded" "[" ts:Lean.Parser.Tactic.simpLemma,* "]" : tactic =>
+  `(tactic| (first
+      | (tlo_exec [$ts,*]; done)
+      | (tlo_exec [$ts,*]; split_ifs <;>
+          first
+            | rfl
+            | guard_absurd
+            | (tlo_finish [$ts,*]; done))))
 
 theorem tlo_append (c : LenCfg) (E : Env α) (l : List α) (x : α) :
     runTLOM c E "append" [.item x] l = summaryOfStep l (TraitListObject.step c E l (.append x)) := by
-  by_cases hc : c.ok (l.length + 1) <;> cases hs : TraitList.step E l (.append x) with
-  | error e => tlo_exec [hc, hs]
+  cases hs : TraitList.step E l (.append x) with
+  | error e => tlo_guarded [hs]
   | ok o =>
     have := step_ret_none E l _ o hs (by intro i; simp)
-    tlo_exec [hc, hs, this]
+    tlo_guarded [hs, this]
 
 theorem tlo_clear (c : LenCfg) (E : Env α) (l : List α) :
     runTLOM c E "clear" [] l = summaryOfStep l (TraitListObject.step c E l .clear) := by
-  by_cases hc : c.ok (0) <;> cases hs : TraitList.step E l .clear with
-  | error e => tlo_exec [hc, hs]
+  cases hs : TraitList.step E l .clear with
+  | error e => tlo_guarded [hs]
   | ok o =>
     have := step_ret_none E l _ o hs (by intro i; simp)
-    tlo_exec [hc, hs, this]
+    tlo_guarded [hs, this]
 
 theorem tlo_extend (c : LenCfg) (E : Env α) (l : List α) (xs : List α) :
     runTLOM c E "extend" [.list xs] l = summaryOfStep l (TraitListObject.step c E l (.extend xs)) := by
-  by_cases hc : c.ok (l.length + xs.length) <;> cases hs : TraitList.step E l (.extend xs) with
-  | error e => tlo_exec [hc, hs]
+  cases hs : TraitList.step E l (.extend xs) with
+  | error e => tlo_guarded [hs]
   | ok o =>
     have := step_ret_none E l _ o hs (by intro i; simp)
-    tlo_exec [hc, hs, this]
+    tlo_guarded [hs, this]
 
 theorem tlo_iadd (c : LenCfg) (E : Env α) (l : List α) (xs : List α) :
     runTLOM c E "__iadd__" [.list xs] l = summaryOfStep l (TraitListObject.step c E l (.iadd xs)) := by
-  by_cases hc : c.ok (l.length + xs.length) <;> cases hs : TraitList.step E l (.iadd xs) with
-  | error e => tlo_exec [hc, hs]
+  cases hs : TraitList.step E l (.iadd xs) with
+  | error e => tlo_guarded [hs]
   | ok o =>
     have := step_ret_none E l _ o hs (by intro i; simp)
-    tlo_exec [hc, hs, this]
+    tlo_guarded [hs, this]
 
 theorem tlo_imul (c : LenCfg) (E : Env α) (l : List α) (n : Int) :
     runTLOM c E "__imul__" [.int n] l = summaryOfStep l (TraitListObject.step c E l (.imul n)) := by
-  by_cases hc : c.ok (max 0 ((l.length : Int) * n)) <;> cases hs : TraitList.step E l (.imul n) with
-  | error e => tlo_exec [hc, hs]
+  cases hs : TraitList.step E l (.imul n) with
+  | error e => tlo_guarded [hs]
   | ok o =>
     have := step_ret_none E l _ o hs (by intro i; simp)
-    tlo_exec [hc, hs, this]
+    tlo_guarded [hs, this]
 
 theorem tlo_insert (c : LenCfg) (E : Env α) (l : List α) (i : Int) (x : α) :
     runTLOM c E "insert" [.int i, .item x] l = summaryOfStep l (TraitListObject.step c E l (.insert i x)) := by
-  by_cases hc : c.ok (l.length + 1) <;> cases hs : TraitList.step E l (.insert i x) with
-  | error e => tlo_exec [hc, hs]
+  cases hs : TraitList.step E l (.insert i x) with
+  | error e => tlo_guarded [hs]
   | ok o =>
     have := step_ret_none E l _ o hs (by intro i; simp)
-    tlo_exec [hc, hs, this]
+    tlo_guarded [hs, this]
 
 theorem tlo_remove (c : LenCfg) (E : Env α) (l : List α) (x : α) :
     runTLOM c E "remove" [.item x] l = summaryOfStep l (TraitListObject.step c E l (.remove x)) := by
-  by_cases hc : c.ok (max ((l.length : Int) - 1) 0) <;> cases hs : TraitList.step E l (.remove x) with
-  | error e => tlo_exec [hc, hs]
+  cases hs : TraitList.step E l (.remove x) with
+  | error e => tlo_guarded [hs]
   | ok o =>
     have := step_ret_none E l _ o hs (by intro i; simp)
-    tlo_exec [hc, hs, this]
+    tlo_guarded [hs, this]
 
 theorem tlo_delIdx (c : LenCfg) (E : Env α) (l : List α) (i : Int) :
     runTLOM c E "__delitem__" [.int i] l = summaryOfStep l (TraitListObject.step c E l (.delIdx i)) := by
-  by_cases hc : c.ok (max ((l.length : Int) - 1) 0) <;> cases hs : TraitList.step E l (.delIdx i) with
-  | error e => tlo_exec [hc, hs]
+  cases hs : TraitList.step E l (.delIdx i) with
+  | error e => tlo_guarded [hs]
   | ok o =>
     have := step_ret_none E l _ o hs (by intro i; simp)
-    tlo_exec [hc, hs, this]
-
-theorem tlo_pop (c : LenCfg) (E : Env α) (l : List α) (i : Int) :
-    runTLOM c E "pop" [.int i] l = summaryOfStep l (TraitListObject.step c E l (.pop i)) := by
-  by_cases hc : c.ok (max ((l.length : Int) - 1) 0) <;> cases hs : TraitList.step E l (.pop i) with
-  | error e => tlo_exec [hc, hs]
-  | ok o => cases hr : o.ret <;> tlo_exec [hc, hs, hr]
+    tlo_guarded [hs, this]
 
 theorem tlo_setIdx (c : LenCfg) (E : Env α) (l : List α) (i : Int) (x : α) :
     runTLOM c E "__setitem__" [.int i, .item x] l = summaryOfStep l (TraitListObject.step c E l (.setIdx i x)) := by
   cases hs : TraitList.step E l (.setIdx i x) with
-  | error e => tlo_exec [hs]
+  | error e => tlo_guarded [hs]
   | ok o =>
     have := step_ret_none E l _ o hs (by intro i; simp)
-    tlo_exec [hs, this]
+    tlo_guarded [hs, this]
+
+theorem tlo_pop (c : LenCfg) (E : Env α) (l : List α) (i : Int) :
+    runTLOM c E "pop" [.int i] l = summaryOfStep l (TraitListObject.step c E l (.pop i)) := by
+  cases hs : TraitList.step E l (.pop i) with
+  | error e => tlo_guarded [hs]
+  | ok o => cases hr : o.ret <;> tlo_guarded [hs, hr]
 
 theorem tlo_delSlice (c : LenCfg) (E : Env α) (l : List α) (s : Slice) :
     runTLOM c E "__delitem__" [.slice s] l = summaryOfStep l (TraitListObject.step c E l (.delSlice s)) := by
   cases hg : Py.getSlice l s with
   | error e => tlo_exec [hg, Except.map]
   | ok r =>
-    by_cases hc : c.ok (max ((l.length : Int) - r.length) 0) <;> cases hs : TraitList.step E l (.delSlice s) with
-    | error e => tlo_exec [hg, hc, hs, Except.map]
+    cases hs : TraitList.step E l (.delSlice s) with
+    | error e => tlo_guarded [hg, hs, Except.map]
     | ok o =>
       have := step_ret_none E l _ o hs (by intro i; simp)
-      tlo_exec [hg, hc, hs, this, Except.map]
+      tlo_guarded [hg, hs, this, Except.map]
 
 theorem tlo_setSlice (c : LenCfg) (E : Env α) (l : List α) (s : Slice) (xs : List α) :
     runTLOM c E "__setitem__" [.slice s, .list xs] l
@@ -393,21 +418,19 @@ theorem tlo_setSlice (c : LenCfg) (E : Env α) (l : List α) (s : Slice) (xs : L
     cases hs : TraitList.step E l (.setSlice s xs) with
     | error e =>
       cases hst : s.step with
-      | none => by_cases hc : c.ok ((l.length : Int) - r.length + xs.length) <;> tlo_exec [hg, hst, hs, hc, Except.map]
+      | none => tlo_guarded [hg, hst, hs, Except.map]
       | some k =>
         by_cases hk : k = 1
-        · by_cases hc : c.ok ((l.length : Int) - r.length + xs.length) <;> tlo_exec [hg, hst, hk, hs, hc, Except.map]
-        · by_cases hl : xs.length = r.length <;> tlo_exec [hg, hst, hk, hs, hl, Except.map]
+        · tlo_guarded [hg, hst, hk, hs, Except.map]
+        · by_cases hl : xs.length = r.length <;> tlo_guarded [hg, hst, hk, hs, hl, Except.map]
     | ok o =>
       have := step_ret_none E l _ o hs (by intro i; simp)
       cases hst : s.step with
-      | none =>
-        by_cases hc : c.ok ((l.length : Int) - r.length + xs.length) <;> tlo_exec [hg, hst, hs, hc, this, Except.map]
+      | none => tlo_guarded [hg, hst, hs, this, Except.map]
       | some k =>
         by_cases hk : k = 1
-        · by_cases hc : c.ok ((l.length : Int) - r.length + xs.length) <;>
-            tlo_exec [hg, hst, hk, hs, hc, this, Except.map]
-        · by_cases hl : xs.length = r.length <;> tlo_exec [hg, hst, hk, hs, hl, this, Except.map]
+        · tlo_guarded [hg, hst, hk, hs, this, Except.map]
+        · by_cases hl : xs.length = r.length <;> tlo_guarded [hg, hst, hk, hs, hl, this, Except.map]
 
 theorem tlo_reverse (c : LenCfg) (E : Env α) (l : List α) :
     runTLOM c E "reverse" [] l = summaryOfStep l (TraitListObject.step c E l .reverse) := by
